@@ -171,10 +171,13 @@ Proof.
 Qed.
 
 Lemma ordered_thm p1 p2 : is_perm p1 -> is_perm p2 -> length p1 = length p2 -> (2 <= length p1)%nat ->
-  always (cxOrdered p1 p2) (perms_kept p1 p2).
+  always (cxOrdered p1 p2) (fun c =>
+    perms_kept p1 p2 c /\
+    exists a b : nat, (a < b < length p1)%nat /\
+      forall i, (a <= i <= b)%nat -> swapped_at p1 p2 (fst c) (snd c) i).
 Proof.
   intros P1 P2 E H. eapply always_conseq; [apply wp_always, wp_cxOrdered; assumption|].
-  intros c Hc. now apply perm_post_kept.
+  intros c [Hc Hs]. split; [now apply perm_post_kept|exact Hs].
 Qed.
 
 Lemma ordered_guard p1 p2 : Z.min (zlen p1) (zlen p2) < 2 -> only_raises (cxOrdered p1 p2) ValueError.
